@@ -363,3 +363,30 @@ Example C12_nesting_v0_unbounded :
   /\ (exists a, seqql_parse ex_space ex_letter ex_digit ex_digit ex_ftype ex_lower false None
                             (ex_nest 50) = ROk a).
 Proof. vm_compute. repeat split; eexists; reflexivity. Qed.
+
+(* qp.level is STATE of the parser object in the Go code (incremented at the entry of parseSubexpr,
+   decremented by the deferred function on every return). legacy_parse_st keeps it as state exactly
+   so; legacy_parse passes the level down as the syntactic nesting (one more per enclosing `(` / NOT).
+   They are the same function: the level at which a sub-expression is parsed is its nesting depth + 1
+   and does not depend on how many siblings, brackets or NOTs were parsed before it - so a query
+   is rejected by the limit iff its NESTING exceeds it, however long it is. (This justifies the spec
+   formula of the classes nesting-limit and nesting-flat: accepted iff nesting + 1 <= limit.) *)
+Theorem C12_level_is_nesting :
+  forall (is_space is_letter is_number : N -> bool) (to_lower : N -> N) (case_sensitive : bool)
+         (ftype : bytes -> N) (maxd stack : option nat) (q : bytes),
+    legacy_parse_st is_space is_letter is_number to_lower case_sensitive ftype maxd stack false q
+    = legacy_parse is_space is_letter is_number to_lower case_sensitive ftype maxd stack q.
+Proof. exact legacy_level_is_nesting. Qed.
+Print Assumptions C12_level_is_nesting.
+
+(* The variant in which the NOT branch returns without the decrement (leak = true) is NOT that
+   function: with limit 3 the flat query  k:a and not k:b and not k:c and not k:d  (nesting 2) is
+   rejected - every NOT parsed so far counts - while the faithful model accepts it. *)
+Example C12_level_leaking_not_refuted :
+  let q := [107;58;97;32;97;110;100;32;110;111;116;32;107;58;98;32;97;110;100;32;110;111;116;32;
+            107;58;99;32;97;110;100;32;110;111;116;32;107;58;100]%N in
+  legacy_parse_st ex_space ex_letter ex_digit ex_lower false ex_ftype (Some 3) None true q = RErr
+  /\ (exists a, legacy_parse_st ex_space ex_letter ex_digit ex_lower false ex_ftype (Some 3) None false q
+                = ROk a)
+  /\ (exists a, legacy_parse ex_space ex_letter ex_digit ex_lower false ex_ftype (Some 3) None q = ROk a).
+Proof. vm_compute. repeat split; eexists; reflexivity. Qed.
